@@ -6,7 +6,7 @@ from .common import TRUSTED, Ctx
 def check(rep):
     ctx = Ctx(rep)
     PR.rule_compiles(ctx, rid="C14.BOTH-LAYOUTS-PARSE")
-    PR.rule_names_bound(ctx, rid="C14.NAMES-BOUND")
+    PR.rule_layout_names(ctx)
     PR.rule_layouts_agree(ctx)
     PR.rule_header_imports(ctx)
     info = PR.rule_one_generator(ctx)
